@@ -81,6 +81,14 @@ fn build(k: &str, t: &Tiling, rng: &mut Rng, scalar_as_1x1: bool, mutate: Option
   Some((json!({"kind": k, "blocks": blocks, "src": src, "expect": expect}), src))
 }
 
+/// case input holds only the parameters; the blocks are rebuilt from them in run() (materialised inputs of all tilings x kinds
+/// would need gigabytes in every worker)
+fn lazy(seed: u64, key: &str, k: &str, t: &Tiling, s1: bool, mutate: Option<&str>) -> Option<J> {
+  let mut rng = Rng::keyed(seed, key);
+  build(k, t, &mut rng, s1, mutate)?;
+  Some(json!({"kind": k, "tiling": t, "key": key, "seed": seed, "s1": s1, "mutate": mutate}))
+}
+
 impl Prop for C11 {
   fn id(&self) -> &'static str { "C11" }
   fn rule(&self) -> String { "all tilings of results up to 4x4 by 1-4 block rows x 1-4 blocks per row (compositions of heights and widths), each block a scalar, 1x1 matrix, row vector, column vector or matrix as its size dictates, plus larger dynamic ones and literals with 5-8 block rows and/or 5-8 blocks per row (n-ary kernels); x element kinds; blocks are API-bound variables with pairwise distinct contents. Invalid variants: one block one row too tall, one block one column too wide, one block of another kind. The result is compared with reference block placement. Non-trivial = more than one block".into() }
@@ -102,10 +110,10 @@ impl Prop for C11 {
         let nb: usize = t.iter().map(|x| x.1.len()).sum();
         let cell = format!("kind={};size={}x{};blocks={};tiling={}", k, r, c, nb, name);
         let s1 = rng.chance(1, 3);
-        if let Some((input, _)) = build(k, t, &mut rng, s1, None) { out.push(Case { id: format!("{};var=ok", cell), cell: format!("{};var=ok", cell), input }); }
+        if let Some(input) = lazy(seed, &format!("{}{}ok", k, name), k, t, s1, None) { out.push(Case { id: format!("{};var=ok", cell), cell: format!("{};var=ok", cell), input }); }
         if rng.chance(1, if full { 3 } else { 2 }) {
           let m = *rng.pick(&["height", "width", "kind"]);
-          if let Some((input, _)) = build(k, t, &mut rng, false, Some(m)) { out.push(Case { id: format!("{};var=bad-{}", cell, m), cell: format!("{};var=bad-{}", cell, m), input }); }
+          if let Some(input) = lazy(seed, &format!("{}{}bad", k, name), k, t, false, Some(m)) { out.push(Case { id: format!("{};var=bad-{}", cell, m), cell: format!("{};var=bad-{}", cell, m), input }); }
         }
       }
       // larger dynamic tilings
@@ -118,7 +126,7 @@ impl Prop for C11 {
         let t: Tiling = h.iter().map(|hh| (*hh, rng.pick(&ws).clone())).collect();
         let nb: usize = t.iter().map(|x| x.1.len()).sum();
         let cell = format!("kind={};size={}x{};blocks={};tiling={};var=ok", k, r, c, nb, tiling_name(&t));
-        if let Some((input, _)) = build(k, &t, &mut rng, false, None) { out.push(Case { id: cell.clone(), cell, input }); }
+        if let Some(input) = lazy(seed, &format!("large{}{}b", k, i), k, &t, false, None) { out.push(Case { id: cell.clone(), cell, input }); }
       }
       // many blocks: 5-8 block rows and / or 5-8 blocks in a row (the n-ary kernels; 1-4 entries have kernels of their own)
       let nm = if tier == Tier::Quick { 20 } else { 200 };
@@ -135,8 +143,8 @@ impl Prop for C11 {
         let nb: usize = t.iter().map(|x| x.1.len()).sum();
         let cell = format!("kind={};size={}x{};blocks={};tiling={}", k, r, c, nb, tiling_name(&t));
         let s1 = rng.chance(1, 3);
-        if let Some((input, _)) = build(k, &t, &mut rng, s1, None) { out.push(Case { id: format!("{};var=ok", cell), cell: format!("{};var=ok", cell), input }); }
-        if rng.chance(1, 3) { let m = *rng.pick(&["height", "width", "kind"]); if let Some((input, _)) = build(k, &t, &mut rng, false, Some(m)) { out.push(Case { id: format!("{};var=bad-{}", cell, m), cell: format!("{};var=bad-{}", cell, m), input }); } }
+        if let Some(input) = lazy(seed, &format!("many{}{}ok", k, i), k, &t, s1, None) { out.push(Case { id: format!("{};var=ok", cell), cell: format!("{};var=ok", cell), input }); }
+        if rng.chance(1, 3) { let m = *rng.pick(&["height", "width", "kind"]); if let Some(input) = lazy(seed, &format!("many{}{}bad", k, i), k, &t, false, Some(m)) { out.push(Case { id: format!("{};var=bad-{}", cell, m), cell: format!("{};var=bad-{}", cell, m), input }); } }
       }
     }
     out
@@ -144,18 +152,21 @@ impl Prop for C11 {
 
   fn run(&self, case: &Case, _flavour: &str) -> Outcome {
     let k = case.input["kind"].as_str().unwrap();
-    let blocks: BTreeMap<String, CVal> = serde_json::from_value(case.input["blocks"].clone()).unwrap();
-    let src = case.input["src"].as_str().unwrap();
+    let t: Tiling = serde_json::from_value(case.input["tiling"].clone()).unwrap();
+    let mut rng = Rng::keyed(case.input["seed"].as_u64().unwrap(), case.input["key"].as_str().unwrap());
+    let Some((built, _)) = build(k, &t, &mut rng, case.input["s1"].as_bool().unwrap(), case.input["mutate"].as_str()) else { return Outcome::inconclusive("harness-build", case.id.clone()) };
+    let blocks: BTreeMap<String, CVal> = serde_json::from_value(built["blocks"].clone()).unwrap();
+    let src = built["src"].as_str().unwrap();
     let mut s = Sess::new();
     for (n, v) in blocks.iter() { s.bind(n, v, false); }
     let res = s.eval(src);
     let arm = s.last_arm();
     let show_blocks = || blocks.iter().map(|(n, v)| format!("{}={}", n, v.show())).collect::<Vec<_>>().join(", ");
     match &res { Ev::Panic(m) => return Outcome::violated("panic-escaped", format!("{}: {}", src, m)), Ev::ParseErr(m) => return Outcome::inconclusive("harness-parse", format!("{} {}", src, m)), _ => {} }
-    if case.input["expect"].is_null() {
+    if built["expect"].is_null() {
       return match res { Ev::Ok(v) => Outcome::violated("value-instead-of-error", format!("{} with {} -> {}", src, show_blocks(), v.show())), _ => Outcome::held().tag("rejected") };
     }
-    let want: CVal = serde_json::from_value(case.input["expect"].clone()).unwrap();
+    let want: CVal = serde_json::from_value(built["expect"].clone()).unwrap();
     let nontrivial = blocks.len() > 1;
     match res {
       Ev::Ok(v) => {
